@@ -188,12 +188,23 @@ def gen_setop(w, r, pure=False):
         args = []
         for _ in range(k):
             args.append(_elem_pool(w, r, P, field, r.randrange(0, 4)))
-        if args and r.random() < w.cfg.get("p_raising_iter", 0.12):
+        others = [(l, f) for (l, f) in cands if f == field and l != P]
+        if others and r.random() < w.cfg.get("p_wrapper_arg", 0.2):
+            q = pick(r, others)
+            args.insert(r.randrange(len(args) + 1), {"wrapper": [q[0], q[1]]})
+        elif args and r.random() < w.cfg.get("p_raising_iter", 0.12):
             items = args.pop()
             items = items or _elem_pool(w, r, P, field, 2)
             args.append({"items": items, "raise_after": r.randrange(0, len(items) + 1)})
         op["args"] = args
         op["style"] = r.choice(["list", "tuple", "iter"])
+    elif meth in ("ior", "ixor", "isub", "iand") and r.random() < w.cfg.get("p_wrapper_arg", 0.2):
+        # the other owning collection itself as the argument ("move everything over")
+        others = [(l, f) for (l, f) in cands if f == field and l != P]
+        q = pick(r, others)
+        if q is None:
+            return None
+        op["args"] = [{"wrapper": [q[0], q[1]]}]
     elif meth in ("ior", "ixor"):
         op["args"] = [_elem_pool(w, r, P, field, r.randrange(0, 4))]
     elif meth in ("isub", "iand"):
@@ -263,6 +274,8 @@ def gen_listop(w, r, pure=False):
         if x is None:
             return None
         op["args"] = [x]
+    elif meth in ("extend", "iadd") and len(irs) > 1 and r.random() < w.cfg.get("p_wrapper_arg", 0.2):
+        op["args"] = [{"from_ir": pick(r, [x for x in irs if x != I])}]
     elif meth in ("extend", "iadd"):
         items = mods_list(r.randrange(0, 4))
         a = {"items": items, "style": r.choice(["list", "tuple", "iter"])}
